@@ -242,7 +242,7 @@ func runIO(c *IOCase) (f *drive.Failure, classes []string, nt bool) {
 }
 
 func genIO(t *rapid.T) IOCase {
-	p := drive.Program{Keys: gen.Keys(t, 3, 12)}
+	p := drive.Program{Keys: gen.KeysWide(t, 3, 12)}
 	p.Cfg = drive.Cfg{
 		MemTableSize: rapid.SampledFrom([]int64{4096, 16384, 64 * 1024, 32 << 20}).Draw(t, "memtable"),
 		MaxMemTables: rapid.SampledFrom([]int{1, 2, 4}).Draw(t, "maxmem"),
